@@ -261,15 +261,38 @@ fn is_ellipsis(p: &PatternNode) -> bool {
   )
 }
 
-struct Align<'s> {
+/// bindings an alignment has to respect (C04's instantiation check); None = unconstrained (C03)
+pub struct EnvView<'e, 't> {
+  pub single: &'e std::collections::BTreeMap<String, TsNode<'t>>,
+  pub multi: &'e std::collections::BTreeMap<String, Vec<TsNode<'t>>>,
+}
+
+struct Align<'s, 'e, 't> {
   src: &'s str,
   s: S,
   node_memo: HashMap<(usize, usize, u32), bool>,
+  env: Option<EnvView<'e, 't>>,
+}
+
+/// structural identity, at least as permissive as the implementation's: equal text, or equal
+/// kind with pairwise identical children
+pub fn struct_eq(src: &str, a: &TsNode, b: &TsNode) -> bool {
+  if a.id() == b.id() || tsutil::text(src, a) == tsutil::text(src, b) {
+    return true;
+  }
+  if a.kind_id() != b.kind_id() {
+    return false;
+  }
+  let (ca, cb) = (tsutil::children(a), tsutil::children(b));
+  if ca.is_empty() || ca.len() != cb.len() {
+    return false;
+  }
+  ca.iter().zip(cb.iter()).all(|(x, y)| struct_eq(src, x, y))
 }
 
 const ERROR_KIND: u16 = 65535;
 
-impl<'s> Align<'s> {
+impl<'s, 'e, 't> Align<'s, 'e, 't> {
   fn kinds_agree(goal: u16, cand: u16) -> bool {
     goal == cand || goal == ERROR_KIND
   }
@@ -318,7 +341,14 @@ impl<'s> Align<'s> {
     }
     let v = match p {
       PatternNode::MetaVar { meta_var } => match meta_var {
-        MetaVariable::Capture(_, named) | MetaVariable::Dropped(named) => !*named || c.is_named(),
+        MetaVariable::Capture(name, named) => {
+          (!*named || c.is_named())
+            && match self.env.as_ref().and_then(|e| e.single.get(name)) {
+              Some(bound) => struct_eq(self.src, bound, c),
+              None => self.env.is_none(),
+            }
+        }
+        MetaVariable::Dropped(named) => !*named || c.is_named(),
         MetaVariable::Multiple | MetaVariable::MultiCapture(_) => true,
       },
       PatternNode::Terminal {
@@ -375,20 +405,76 @@ impl<'s> Align<'s> {
       return cs[j..].iter().all(|c| self.cand_skippable_trailing(c));
     }
     let p = &ps[i];
-    // (d) leave the pattern child unmatched
-    if self.pattern_skippable(p, after_ellipsis) {
+    // (d) leave the pattern child unmatched (a named ellipsis under an env goes through (a))
+    let env_bound_ellipsis = match (p, self.env.as_ref()) {
+      (
+        PatternNode::MetaVar {
+          meta_var: MetaVariable::MultiCapture(name),
+        },
+        Some(e),
+      ) => e.multi.contains_key(name),
+      _ => false,
+    };
+    if !env_bound_ellipsis && self.pattern_skippable(p, after_ellipsis) {
       let keep_flag = is_ellipsis(p) || after_ellipsis;
       if self.align(ps, cs, i + 1, j, keep_flag, memo) {
         return true;
       }
     }
-    if j == cs.len() {
+    if j == cs.len() && !env_bound_ellipsis {
       return false;
     }
-    let c = &cs[j];
+    if j == cs.len() {
+      // only the env-bound ellipsis can still consume nothing
+      let p_is = is_ellipsis(p);
+      if !p_is {
+        return false;
+      }
+    }
+    let dummy;
+    let c = if j < cs.len() {
+      &cs[j]
+    } else {
+      dummy = cs.last().cloned();
+      match &dummy {
+        Some(d) => d,
+        None => return false,
+      }
+    };
     // (a) an ellipsis absorbs this candidate (consecutive siblings)
-    if is_ellipsis(p) && self.align(ps, cs, i, j + 1, false, memo) {
-      return true;
+    if is_ellipsis(p) {
+      let bound: Option<Vec<TsNode>> = match (p, self.env.as_ref()) {
+        (
+          PatternNode::MetaVar {
+            meta_var: MetaVariable::MultiCapture(name),
+          },
+          Some(e),
+        ) => e.multi.get(name).map(|v| v.iter().filter(|n| n.is_named()).cloned().collect()),
+        _ => None,
+      };
+      match bound {
+        None => {
+          if self.align(ps, cs, i, j + 1, false, memo) {
+            return true;
+          }
+        }
+        Some(bound) => {
+          // the run cs[j..j2] must carry exactly the bound named nodes (structurally)
+          for j2 in j..=cs.len() {
+            let named: Vec<&TsNode> = cs[j..j2].iter().filter(|n| n.is_named()).collect();
+            if named.len() > bound.len() {
+              break;
+            }
+            if named.len() == bound.len()
+              && named.iter().zip(bound.iter()).all(|(a, b)| struct_eq(self.src, a, b))
+              && self.align(ps, cs, i + 1, j2, true, memo)
+            {
+              return true;
+            }
+          }
+          return false;
+        }
+      }
     }
     // (b) align p with c
     if !is_ellipsis(p) && self.legal_node(p, c) && self.align(ps, cs, i + 1, j + 1, false, memo) {
@@ -414,6 +500,26 @@ pub fn legal(src: &str, p: &PatternNode, c: &TsNode, strictness: &str) -> bool {
     src,
     s,
     node_memo: HashMap::new(),
+    env: None,
+  };
+  a.legal_node(p, c)
+}
+
+/// C04: is there a legal alignment in which every variable occurrence sits on code that is
+/// structurally identical to what `env` binds it to
+pub fn legal_env<'t>(src: &str, p: &PatternNode, c: &TsNode<'t>, strictness: &str, env: EnvView<'_, 't>) -> bool {
+  let s = match strictness {
+    "cst" => S::Cst,
+    "smart" => S::Smart,
+    "ast" => S::Ast,
+    "relaxed" => S::Relaxed,
+    _ => S::Signature,
+  };
+  let mut a = Align {
+    src,
+    s,
+    node_memo: HashMap::new(),
+    env: Some(env),
   };
   a.legal_node(p, c)
 }
